@@ -1,7 +1,10 @@
 #!/bin/sh
-# Build /repo's working tree and the native drivers from files on disk only (offline). ~5-6 min cold on 16 cores.
+# Build /repo's working tree and the native drivers of the registered checks from files on disk only (offline).
+# ~5-6 min cold on 16 cores. Drivers still under development (not listed in build_modes.txt) are not built here.
 set -e
 cd "$(dirname "$0")"
 mkdir -p build out evidence
-make -C harness -k -j"$(nproc)" all > build/setup-make.log 2>&1 || { tail -40 build/setup-make.log; exit 2; }
+targets=""
+for m in $(cat build_modes.txt); do targets="$targets /verif/build/hgv_$m"; done
+make -C harness -j"$(nproc)" $targets > build/setup-make.log 2>&1 || { tail -40 build/setup-make.log; exit 2; }
 echo "setup ok: $(ls build/hgv_* | tr '\n' ' ')"
